@@ -7,7 +7,7 @@ G = None
 def register(progs, g):
     global G
     G = g
-    progs.update({'C17': prog_C17, 'C03': prog_C03, 'C16': prog_C16, 'C01': prog_C01, 'C02': prog_C02, 'C08': prog_C08, 'C09': prog_C09, 'C10': prog_C10, 'C15': prog_C15, 'C18': prog_C18, 'C07': prog_C07, 'C11': prog_C11, 'C13': prog_C13})
+    progs.update({'C17': prog_C17, 'C03': prog_C03, 'C16': prog_C16, 'C01': prog_C01, 'C02': prog_C02, 'C08': prog_C08, 'C09': prog_C09, 'C10': prog_C10, 'C15': prog_C15, 'C18': prog_C18, 'C07': prog_C07, 'C11': prog_C11, 'C13': prog_C13, 'C14': prog_C14})
 
 
 def plain_diff(ops_path, a_path, b_path, limit=40):
@@ -293,3 +293,18 @@ def prog_C13(ctx):
         ctx.cov['distinct_nontrivial'] = ctx.cov.get('distinct_nontrivial', 0) + len(cr.get('OutcomeHist') or {})
         ctx.cov['exhaustive'] = bool(cr.get('Exhaustive'))
         ctx.cov['rule'] += '; crashdiff: quick = one kill per distinct (effect, handler, event) shape of a (2,2) ceremony (sampled to 45) + 6 runs with three kills; thorough = EVERY durable effect of a (2,2) and a (3,2) ceremony + 40 multi-kill runs each'
+
+
+def prog_C14(ctx):
+    generic(ctx, ['Dc4bcVerif.Props.C14', 'Dc4bcVerif.Props.C15'], 'nodediff', 'node', ['C14'], NODE_TRUSTED +
+            ['translator: for every method of BaseOperationRepo whether it holds the repository mutex for its whole body and which repository/state calls it makes (Gen/Locks.lean), regenerated on every run; repo_rmw_locked is kernel-evaluated over it',
+             'scheddiff: an API request and a poll tick of one real node run as two goroutines over the SAME services; every call on the state store or the board first asks a scheduler, which executes a plan with up to three pre-emptions (a thread that blocks on a lock held by the other is detected by a 60 ms timeout and the holder is resumed); the final state (pool, tombstones, rounds, signatures, offset, posted messages) must be that of one of the two serial orders, computed on the same snapshot',
+             'assumed: Go mutexes give mutual exclusion and the memory model makes a locked read-modify-write one atomic step (the Lean pool operations put/del are such steps); LevelDB single Put/Get are atomic'],
+            NODE_RULE, cov_from_stats=node_cov)
+    ev = ctx.cov.get('evaluations', 0)
+    sd = monitor_only(ctx, 'scheddiff', ['C14'], 'interleavings')
+    if sd:
+        ctx.cov['evaluations'] = ev + sd['Schedules']
+        ctx.cov['distinct_nontrivial'] = ctx.cov.get('distinct_nontrivial', 0) + len(sd.get('OutcomeHist') or {})
+        ctx.cov['exhaustive'] = bool(sd.get('Exhaustive'))
+        ctx.cov['rule'] += '; scheddiff: three (request, message) pairs: ProcessOperation || poll(new proposal), ApproveParticipation || poll(new invitation), ResetFSMState || poll; per pair all single pre-emptions and a sample of double/triple ones (60 plans quick, 1500 thorough = exhaustive within 3 pre-emptions when the pair has few steps)'
